@@ -17,6 +17,7 @@ EXCLUSIONS = {
     'bare-vararg scalar raw keys with dir archives': "known finding C03: 1 and '1' share a file name",
     'dir source-text archive with keys needing an input file': 'known finding C03/C04: source-text dir archive cannot read back such keys; only md5-style keys used',
     'python-hash keymaps with arguments whose hashes collide (-1/-2)': 'python hash is lossy; property speaks of information-preserving keymaps',
+    'non-ASCII text in keys of source-text file archives': 'finding D9c (C03/C04): written as latin-1, read as UTF-8 source',
     'nan arguments': 'nan != nan: "the same call" is undefined',
     'tuple/list results with json/sqlite/source codecs': 'outside the codec round-trip domain',
 }
@@ -48,8 +49,8 @@ def keymap_specs_for(key_req, module, has_varargs, info_preserving_only=True, al
                     ok = True
                     if not flat and (module != 'safe' or not unhashable_ok):
                         ok = False                # unhashable keys: only the C16 'safe degradation' check uses them
-                    if key_req == 'evalable' and typed:
-                        ok = False                # repr of a type object cannot be eval-ed
+                    if key_req == 'evalable' and (typed or sentinel):
+                        ok = False                # repr of a type object / <SENTINEL> cannot be eval-ed back
                     if key_req == 'fname' and (has_varargs or not flat):
                         ok = False                # bare scalars alias (1 vs '1'); non-flat raw is unhashable anyway
                     if ok:
@@ -84,8 +85,15 @@ def arg_values(draw, module, kkind, key_req, rich=False):
         return draw(st.one_of(st.integers(0, 6).map(lambda i: ['i', i]),
                               V.strs(hurt), V.NONE,
                               st.lists(st.integers(0, 4).map(lambda i: ['i', i]), max_size=2).map(lambda x: ['t', x])))
+    if key_req == 'evalable':
+        # source-text file archive: non-latin-1 text cannot be written, non-ASCII text cannot be read back
+        # (finding D9c, probed in C03/C04) -> ASCII only here
+        ascii_alpha = [c for c in V.HURT if ord(c) < 128]
+        s = st.lists(st.sampled_from(ascii_alpha), max_size=4).map(lambda cs: ['s', ''.join(cs)])
+        base = st.one_of(V.ints(), s, V.NONE, V.BOOLS, V.floats())
+        return draw(st.one_of(base, st.lists(base, max_size=2).map(lambda x: ['t', x])))
     if key_req in ('fname', 'strsafe'):
-        safe_alpha = ['a', 'b', '1', '_', '.', "'", '"', ' ', ',', '(', 'é']
+        safe_alpha = ['a', 'b', '1', '_', '.', "'", '"', ' ', ',', '(', 'é', ':', '|', '?', '*', '<', '>', '\\', '=', '+']
         s = st.lists(st.sampled_from(safe_alpha), max_size=4).map(lambda cs: ['s', ''.join(cs)])
         base = st.one_of(V.ints(), s, V.NONE, V.BOOLS, V.floats())
         return draw(st.one_of(base, st.lists(base, max_size=2).map(lambda x: ['t', x])))
@@ -110,6 +118,31 @@ def bindings(draw, sig, valstrat):
     return b
 
 
+@st.composite
+def near_duplicate(draw, b, valstrat, forbidden=()):
+    """a binding that differs from b in exactly one bound value (one character for strings):
+    the shape that exposes key collisions between 'almost equal' calls"""
+    import copy
+    nb = copy.deepcopy(b)
+    slots = [('named', i) for i in range(len(nb.get('named', [])))] + \
+            [('xpos', i) for i in range(len(nb.get('xpos', [])))] + \
+            [('xkw', i) for i in range(len(nb.get('xkw', [])))]
+    kind, i = slots[draw(st.integers(0, len(slots) - 1))]
+    cur = nb[kind][i] if kind == 'xpos' else nb[kind][i][1]
+    if cur[0] == 's' and cur[1] and draw(st.booleans()):
+        txt = cur[1]
+        pos = draw(st.integers(0, len(txt) - 1))
+        ch = draw(st.sampled_from([c for c in ['_', '-', '"', ':', '|', '/', 'a', '1', ' ', '.'] if c not in forbidden]))
+        new = ['s', txt[:pos] + ch + txt[pos + 1:]]
+    else:
+        new = draw(valstrat)
+    if kind == 'xpos':
+        nb[kind][i] = new
+    else:
+        nb[kind][i][1] = new
+    return nb
+
+
 def op_table(npool):
     idx = st.integers(0, max(0, npool - 1))
     form = st.integers(0, 41)
@@ -123,6 +156,10 @@ def op_table(npool):
         'dumpk': st.lists(idx, min_size=1, max_size=3).map(lambda x: ['dumpk', x]),
         'loadk': st.lists(idx, min_size=1, max_size=3).map(lambda x: ['loadk', x]),
         'awrite': st.lists(idx, min_size=1, max_size=6).map(lambda x: ['awrite', x]),
+        'redecorate': st.just(['redecorate']),
+        'reopen': st.just(['reopen']),
+        'dumpreopen': st.just(['dumpreopen']),
+        'fork': st.lists(st.tuples(st.just('call'), idx, form, rseed).map(list), min_size=1, max_size=5).map(lambda x: ['fork', x]),
         'clear': st.just(['clear']),
         'clearkeep': st.just(['clearkeep']),
         'arch_off': st.just(['arch_off']),
@@ -146,14 +183,14 @@ def op_lists(draw, weights, npool, min_ops, max_ops):
 
 
 DEFAULT_WEIGHTS = {'call': 12, 'hammer': 0, 'dump': 1, 'load': 1, 'dumpk': 1, 'loadk': 1, 'clear': 1,
-                   'clearkeep': 1, 'arch_off': 1, 'arch_on': 1, 'arch_query': 0, 'lookup': 0, 'key': 0, 'awrite': 0, 'burst': 0}
+                   'clearkeep': 1, 'arch_off': 1, 'arch_on': 1, 'arch_query': 0, 'lookup': 0, 'key': 0, 'awrite': 0, 'burst': 0, 'redecorate': 0, 'reopen': 0, 'fork': 0, 'dumpreopen': 0}
 
 
 @st.composite
 def cache_cases(draw, modules=('std', 'safe'), algos=tuple(H.ALGOS), maxsizes=(1, 2, 3, 5),
                 backends=tuple(H.BACKENDS_ALL), weights=None, max_ops=30, min_ops=1, pool=(3, 7),
                 purges=(False, True), shapes=None, allow_default_keymap=True, ms_pos=(False,),
-                rich_args=False, info_preserving_only=True, mem_weight=0, extra=None, unhashable_ok=False, prefill_pct=0):
+                rich_args=False, info_preserving_only=True, mem_weight=0, extra=None, unhashable_ok=False, prefill_pct=0, raising_pct=0):
     w = dict(DEFAULT_WEIGHTS)
     w.update(weights or {})
     module = draw(st.sampled_from(modules))
@@ -187,7 +224,11 @@ def cache_cases(draw, modules=('std', 'safe'), algos=tuple(H.ALGOS), maxsizes=(1
     npool = draw(st.integers(pool[0], pool[1]))
     pool_b = []
     for _ in range(npool):
-        b = draw(bindings(sig, valstrat))
+        if pool_b and draw(st.integers(0, 9)) < 4:
+            b = draw(near_duplicate(pool_b[draw(st.integers(0, len(pool_b) - 1))], valstrat,
+                                   forbidden=('-', '/') if key_req in ('fname', 'strsafe') else (('☃', 'é') if key_req == 'evalable' else ())))
+        else:
+            b = draw(bindings(sig, valstrat))
         if b not in pool_b:
             pool_b.append(b)
     npool = len(pool_b)
@@ -204,6 +245,41 @@ def cache_cases(draw, modules=('std', 'safe'), algos=tuple(H.ALGOS), maxsizes=(1
         'keymap': keymap, 'backend': backend, 'sig': sig, 'rmode': rmode,
         'pool': pool_b, 'ops': ops,
     }
+    if raising_pct:
+        rz = []
+        for i in range(npool):
+            if draw(st.integers(0, 99)) < raising_pct:
+                rz.append([i, draw(st.sampled_from(['KeyError', 'TypeError', 'ValueError', 'IndexError', 'RuntimeError', 'AttributeError']))])
+        case['raising'] = rz
     if extra:
         case.update(extra)
     return case
+
+
+FAMILIES = {
+    'noarch': ('none', 'plain', 'cache_null'),
+    'memarch': ('cache_dict',),
+    'persist': tuple(b for b in H.BACKENDS_ALL if b.startswith('cache_') and b not in ('cache_null', 'cache_dict')),
+    'direct': tuple(b for b in H.BACKENDS_ALL if b.startswith('direct_')),
+}
+
+
+def strata_grid(modules=('std', 'safe'), algos=tuple(H.ALGOS), purges=(False, True), families=('noarch', 'memarch', 'persist', 'direct'),
+                backends=None, **kw):
+    """stratified generation: one Hypothesis strategy per (module, algo, purge, backend family) so that every combination
+    is searched with its own example budget instead of relying on the library's draw distribution"""
+    out = []
+    for m in modules:
+        for a in algos:
+            for p in purges:
+                if a in ('no', 'inf') and p != purges[0]:
+                    continue            # purge is fixed for these classes
+                for fam in families:
+                    bs = FAMILIES[fam]
+                    if backends is not None:
+                        bs = tuple(b for b in bs if b in backends)
+                    if not bs:
+                        continue
+                    out.append(('%s/%s/purge=%s/%s' % (m, a, p, fam),
+                                cache_cases(modules=(m,), algos=(a,), purges=(p,), backends=bs, **kw)))
+    return out
